@@ -35,6 +35,19 @@ func RepoRoot() string {
 	return "/repo"
 }
 
+// outRoot is where evidence and replay files go: /verif for a run against /repo itself; the
+// scratch work directory when a scratch copy is being tried, so that /verif/evidence only ever
+// describes runs against /repo.
+func outRoot() string {
+	if RepoRoot() != "/repo" {
+		if w := os.Getenv("VERIF_WORK"); w != "" {
+			return w
+		}
+		return os.TempDir()
+	}
+	return VerifRoot
+}
+
 // Finding is one line of known_findings.jsonl.
 type Finding struct {
 	Status   string `json:"status"` // "known" | "fixed"
@@ -237,7 +250,7 @@ func (r *Run) Violation(key, what string, cs any) {
 		return
 	}
 	v := &violation{Key: key, What: what, Count: 1, FirstObs: cs}
-	dir := filepath.Join(VerifRoot, "replay", r.ID)
+	dir := filepath.Join(outRoot(), "replay", r.ID)
 	os.MkdirAll(dir, 0o755)
 	name := key
 	if len(name) > 120 {
@@ -351,8 +364,8 @@ func (r *Run) Finish() {
 	}
 	if r.replayKey == "" {
 		b, _ := json.MarshalIndent(ev, "", " ")
-		os.MkdirAll(filepath.Join(VerifRoot, "evidence"), 0o755)
-		os.WriteFile(filepath.Join(VerifRoot, "evidence", r.ID+".json"), append(b, '\n'), 0o644)
+		os.MkdirAll(filepath.Join(outRoot(), "evidence"), 0o755)
+		os.WriteFile(filepath.Join(outRoot(), "evidence", r.ID+".json"), append(b, '\n'), 0o644)
 	}
 
 	var out strings.Builder
